@@ -89,6 +89,9 @@ EXT = {
     'chic2': (CORE + [14], [24, 17, 18]),
     'plain': (CORE, [17, 18, 19, 20, 21, 25]),
     'nla_al': ([], CORE + [26, 27]),
+    # NlaIII with fragment_class_args library_name (bamtagmultiome -libname): the cells are named <run>_<plate>_<well> and differ
+    # in the plate only; letters: the core ones (cell 1) and the same site / UMIs in cell 2
+    'nla_lib': ([], CORE + [12, 13]),
 }
 DEEP = [0, 1, 2, 3]     # K0 x {AAA, AAC, ACC, NAA}: one delivery coordinate, every sequence is a legal order
 
@@ -100,7 +103,7 @@ def bounds(tier):
             'extension': {'letters': {str(NB + i): list(l) for i, l in enumerate(EXT_LETTERS)},
                           'alphabet_per_class(core,new)': {k: [list(v[0]), list(v[1])] for k, v in EXT.items()},
                           'max_fragments': 3 if tier == 'quick' else 4, 'umi_hamming_distance': [0, 1, 2], 'max_associated_fragments': [None, 1],
-                          'pooling': [0, 1], 'yield_invalid': [False, True], 'assignment_radius(chic)': [0, 2], 'use_allele_tag(nla_al)': True,
+                          'pooling': [0, 1], 'yield_invalid': [False, True], 'assignment_radius(chic)': [0, 2], 'use_allele_tag(nla_al)': True, 'library_name(nla_lib)': 'LIBX with cells RUN7_P<cell>_12',
                           'duplicate_flag_patterns': 'all 2^n - 1 in (d=1, cap None, pooling 1); flagged fragments carry stale tags ' + repr(STALE_TAGS)},
             'deep_same_site': {'letters': DEEP, 'fragments': 4 if tier == 'quick' else 5, 'umi_hamming_distance': [1, 2], 'pooling': [0, 1],
                                'classes': CLASSES}}
@@ -135,7 +138,7 @@ def make(li, i, cls, dupflag=False, stale=False):
         kw['extra_tags'] = {'rS': 'ACNTAC'}
     if variant in ('da_a', 'da_b'):
         kw['extra_tags'] = {'DA': variant[-1]}
-    if cls in ('nla', 'plain', 'nla_al'):
+    if cls in ('nla', 'plain', 'nla_al', 'nla_lib'):
         if variant == 'clip':
             kw['clip'] = 3
         if variant == 'error':
@@ -146,12 +149,16 @@ def make(li, i, cls, dupflag=False, stale=False):
             kw['clip'] = 3
         reads = chic_reads(f'f{i}', contig, SITE + off, length, cell, umi, reverse=rev, duplicate_flag=dupflag, **kw)
     if variant == 'invalid':
-        if cls in ('nla', 'nla_al'):
+        if cls in ('nla', 'nla_al', 'nla_lib'):
             _break_motif(reads[0])
         else:
             for r in reads:
                 if r is not None:
                     r.is_qcfail = True
+    if cls == 'nla_lib':
+        for r in reads:
+            if r is not None:
+                r.set_tag('SM', f'RUN7_P{cell}_12')
     if variant == 'r2only':
         reads = [None, reads[1]]
     if stale and dupflag:
@@ -194,6 +201,8 @@ def classes_of(cls):
         return NlaIIIMolecule, NlaIIIFragment, {}
     if cls == 'nla_al':
         return NlaIIIMolecule, NlaIIIFragment, {'use_allele_tag': True}
+    if cls == 'nla_lib':
+        return NlaIIIMolecule, NlaIIIFragment, {'library_name': 'LIBX'}
     if cls == 'chic0':
         return CHICMolecule, CHICFragment, {'assignment_radius': 0}
     if cls == 'chic2':
@@ -253,12 +262,19 @@ def snapshot(reads):
     return out
 
 
-def check_word(word, cls, d, cap, pooling, dup_pattern=0, second_pass=False, yield_invalid=False, stale=False):
-    """returns (violations, info)"""
+def check_word(word, cls, d, cap, pooling, dup_pattern=0, second_pass=False, yield_invalid=False, stale=False, earlier=None):
+    """returns (violations, info).  earlier = class of an EARLIER tagging run over the same reads (CHIC with another assignment
+    radius): its tags (DS of a merged molecule, RC, af, TF, duplicate bits) are input history and must not decide anything"""
     n = len(word)
     reads = [make(li, i, cls, dupflag=bool((dup_pattern >> i) & 1), stale=stale) for i, li in enumerate(word)]
     viol = {}
-    pre = f'{cls}'
+    pre = f'{cls}' + (f':tagged-before-as-{earlier}' if earlier else '')
+    if earlier:
+        try:
+            for m in iterate(reads, earlier, d, None, pooling, False):
+                m.write_tags()
+        except Exception:
+            pass            # the earlier run is judged on its own
     try:
         mols = iterate(reads, cls, d, cap, pooling, yield_invalid)
     except Exception as ex:
@@ -296,8 +312,8 @@ def check_word(word, cls, d, cap, pooling, dup_pattern=0, second_pass=False, yie
     flat = [x for g in part for x in g]
     if sorted(flat) != sorted(truth):
         viol[f'{pre}:fragment-lost-or-emitted-twice'] = {'partition': part_all}
-    radius = {'nla': 0, 'nla_al': 0, 'chic0': 0, 'chic2': 2, 'plain': 0}[cls]
-    exact_cls = cls in ('nla', 'chic0', 'nla_al')
+    radius = {'nla': 0, 'nla_al': 0, 'nla_lib': 0, 'chic0': 0, 'chic2': 2, 'plain': 0}[cls]
+    exact_cls = cls in ('nla', 'chic0', 'nla_al', 'nla_lib')
     if cls == 'nla_al':
         # whether a fragment WITHOUT an allele tag may join the molecule of a tagged one is left open: exactness is only judged
         # when no (cell, site, strand, UMI) class holds tagged and untagged fragments together
@@ -525,6 +541,17 @@ def run_ext(item, tier, acc):
                     acc.count('ext:cases-yield_invalid-with-rejected-fragment')
                 for sig, det in viols:
                     acc.violation(sig, case, det)
+                if cls in ('chic0', 'chic2') and cap is None and not yi:
+                    # the same reads were tagged before with the OTHER assignment radius (a merged molecule wrote its outermost
+                    # site into DS of all its fragments): the run under test must group by what the reads say, not by old tags
+                    earlier = 'chic2' if cls == 'chic0' else 'chic0'
+                    case2 = dict(case, earlier=earlier)
+                    viols, info = check_word(word, cls, d, cap, pooling, 0, second_pass=True, yield_invalid=yi, earlier=earlier)
+                    acc.case(case2, transitions=3 * n, nontrivial=n >= 2,
+                             outcome=f"ext:{cls}:after-{earlier}:d{d}:mols={info.get('molecules')}/{n}")
+                    acc.count('ext:cases-tagged-before-with-another-radius')
+                    for sig, det in viols:
+                        acc.violation(sig, case2, det)
         yi = has_rejected        # the tagger yields rejected fragments; flags of fragments that are never emitted are not judged
         for pat in range(1, 1 << n):
             case = {'word': list(word), 'cls': cls, 'd': 1, 'cap': None, 'pooling': 1, 'dup_pattern': pat, 'second_pass': True,
@@ -572,6 +599,16 @@ def run_shard(shard, tier, acc):
                          outcome=f"{cls}:d{d}:cap{cap}:mols={info.get('molecules')}/{n}")
                 for sig, det in viols:
                     acc.violation(sig, case, det)
+                if cls == 'chic0' and cap is None and n >= 2:
+                    # history: the reads were tagged before with assignment radius 2 (sites 0 and 1 were one molecule then and
+                    # carry its outermost site in DS); radius 0 must still keep them apart
+                    case2 = dict(case, earlier='chic2')
+                    viols, info = check_word(word, cls, d, cap, pooling, 0, second_pass=True, earlier='chic2')
+                    acc.case(case2, transitions=3 * n, nontrivial=nontrivial,
+                             outcome=f"{cls}:after-chic2:d{d}:mols={info.get('molecules')}/{n}")
+                    acc.count('cases-tagged-before-with-another-radius')
+                    for sig, det in viols:
+                        acc.violation(sig, case2, det)
             # every input duplicate-flag pattern in the default configuration of each class
             for cls in CLASSES:
                 for pat in range(1, 1 << n):
@@ -584,4 +621,5 @@ def run_shard(shard, tier, acc):
 
 def replay(case):
     return check_word(tuple(case['word']), case['cls'], case['d'], case['cap'], case['pooling'], case['dup_pattern'],
-                      case['second_pass'], bool(case.get('yield_invalid', False)), bool(case.get('stale', False)))[0]
+                      case['second_pass'], bool(case.get('yield_invalid', False)), bool(case.get('stale', False)),
+                      earlier=case.get('earlier'))[0]
